@@ -8,6 +8,7 @@ import (
 	"strconv"
 	"strings"
 	"sync"
+	"unsafe"
 
 	"github.com/gauss-project/aurorafs/pkg/boson"
 	"github.com/gauss-project/aurorafs/pkg/topology/pslice"
@@ -24,7 +25,9 @@ func (prop) Rule() string {
 	return "cases: `new maxBins base` (maxBins in {1..6,8,32}, base 4 or 32 bytes) then 8-60 ops over a 12-address universe built so that several addresses share a bin " +
 		"(first differing bit 0..maxBins+2, or equal to the base): add with 0..5 addresses (batches with repeated and already-present addresses), remove (present/absent), exists, " +
 		"sizes (Length, every BinSize, BinSize(maxBins), ShallowestEmpty), binpeers, each fwd|rev with stop/next/err schedules, each with an Add/Remove performed from inside the " +
-		"callback (update interleaved with iteration: snapshot semantics), stress (concurrent writer of fresh addresses + two iterating readers). Regression cases first " +
+		"callback (update interleaved with iteration: snapshot semantics), stress (concurrent writer of fresh addresses + two iterating readers). After every mutating op the " +
+		"runner prints len/cap of every bin and whether its backing array changed (verif hook VerifBinMem), and annotates the capacities observed right after each Add " +
+		"(the choice Go's append made) for the memory-level model. Regression cases first " +
 		"(Add(a,a); Add(a,b,a) with a present). ~5% malformed (address length != base length, bin >= maxBins). " +
 		"Non-trivial: a slice exists, >=2 mutations and >=1 observation; distinct by op-list hash."
 }
@@ -147,7 +150,34 @@ type runner struct {
 	ps      *pslice.PSlice
 	base    []byte
 	maxBins int
-	ref     map[string]bool // model-free oracle: added \ removed
+	ref     map[string]bool  // model-free oracle: added \ removed
+	prev    []unsafe.Pointer // backing array of every bin after the previous op (keeps them alive)
+}
+
+// capTokens: the capacity of every bin right now — the oracle the memory-level model gets for the
+// choices Go's append makes when it has to grow (annotation of add / each+add / stress).
+func (rn *runner) capTokens() []string {
+	_, caps, _ := rn.ps.VerifBinMem()
+	ts := make([]string, len(caps))
+	for i, c := range caps {
+		ts[i] = strconv.Itoa(c)
+	}
+	return ts
+}
+
+// memLine: `mem=len/cap[!],…` per bin; `!` = the bin's backing array is not the one it had after
+// the previous op.  Compared with the memory-level model (PSliceMemOps) line by line.
+func (rn *runner) memLine() string {
+	lens, caps, arrs := rn.ps.VerifBinMem()
+	xs := make([]string, len(lens))
+	for i := range lens {
+		xs[i] = fmt.Sprintf("%d/%d", lens[i], caps[i])
+		if i < len(rn.prev) && rn.prev[i] != arrs[i] {
+			xs[i] += "!"
+		}
+	}
+	rn.prev = arrs
+	return "mem=" + strings.Join(xs, ",")
 }
 
 func (prop) New() core.Runner { return &runner{} }
@@ -216,6 +246,7 @@ func (rn *runner) Step(ctx *core.Ctx, op []string) string {
 		}
 		rn.ps = pslice.New(m, boson.NewAddress(b))
 		rn.base, rn.maxBins, rn.ref = b, m, map[string]bool{}
+		_, _, rn.prev = rn.ps.VerifBinMem()
 		return "ok"
 	}
 	if rn.ps == nil {
@@ -249,11 +280,12 @@ func (rn *runner) Step(ctx *core.Ctx, op []string) string {
 			return "bad-op"
 		}
 		rn.ps.Add(as...)
+		ctx.Annotate(rn.capTokens()...)
 		for _, a := range as {
 			rn.ref[string(a.Bytes())] = true
 		}
 		rn.checkSet(ctx, "add", len(as) > 1 && repeats(as))
-		return "ok"
+		return "ok " + rn.memLine()
 	case len(op) == 2 && op[0] == "remove":
 		as, ok := parse(op[1:])
 		if !ok {
@@ -262,7 +294,7 @@ func (rn *runner) Step(ctx *core.Ctx, op []string) string {
 		rn.ps.Remove(as[0])
 		delete(rn.ref, string(as[0].Bytes()))
 		rn.checkSet(ctx, "remove", false)
-		return "ok"
+		return "ok " + rn.memLine()
 	case len(op) == 2 && op[0] == "exists":
 		as, ok := parse(op[1:])
 		if !ok {
@@ -326,7 +358,7 @@ func (rn *runner) Step(ctx *core.Ctx, op []string) string {
 		}
 		rn.stress(ctx, uint64(seed))
 		rn.checkSet(ctx, "stress", false)
-		return "ok"
+		return "ok " + rn.memLine()
 	}
 	return "bad-op"
 }
@@ -369,6 +401,7 @@ func (rn *runner) each(ctx *core.Ctx, op []string, parse func([]string) ([]boson
 			mutBin = int(po)
 			if kind == "add" {
 				rn.ps.Add(as...)
+				ctx.Annotate(rn.capTokens()...)
 				for _, a := range as {
 					rn.ref[string(a.Bytes())] = true
 				}
@@ -474,9 +507,9 @@ func (rn *runner) each(ctx *core.Ctx, op []string, parse func([]string) ([]boson
 		res = "err"
 	}
 	if len(vs) == 0 {
-		return res + " -"
+		return res + " - " + rn.memLine()
 	}
-	return res + " " + strings.Join(vs, ",")
+	return res + " " + strings.Join(vs, ",") + " " + rn.memLine()
 }
 
 // stress: a writer adds and removes fresh addresses (never in the reference set) while two
@@ -545,15 +578,22 @@ func (rn *runner) stress(ctx *core.Ctx, seed uint64) {
 			}
 		}(rd == 1)
 	}
+	var annot []string
+	for _, a := range fr {
+		annot = append(annot, core.Hex(a.Bytes()))
+	}
 	for round := 0; round < 30; round++ {
 		rn.ps.Add(fr[0], fr[1], fr[2])
 		rn.ps.Add(fr[3])
+		// the only append that may have grown through the runtime: observe the capacity it chose
+		annot = append(annot, rn.capTokens()[rn.binOf(fr[3].Bytes())])
 		rn.ps.Remove(fr[1])
 		rn.ps.Add(fr[4], fr[5], fr[4])
 		for _, i := range []int{0, 5, 3, 2, 4} {
 			rn.ps.Remove(fr[i])
 		}
 	}
+	ctx.Annotate(annot...)
 	close(stop)
 	wg.Wait()
 	sort.Strings(problems)
